@@ -964,7 +964,21 @@ func (c *ctx) nilElementOracle(l *Loaded, name string, msg picobuf.Message, cs f
 		withEmpty, bad2 := realMarshal(msg)
 		f.Index(k).Set(saved)
 		c.count("nil_element_cases")
-		if bad1 != "" || bad2 != "" || !c.sameBytes(l, name, withNil, withEmpty) {
+		// compared as decoded values: an empty element of a type with an always-written field (a
+		// non-pointer Duration, an `always` scalar) is not the empty byte string, but both must
+		// decode to the same list — same length, element k the zero message
+		same := bad1 == "" && bad2 == "" && c.sameBytes(l, name, withNil, withEmpty)
+		if !same && bad1 == "" && bad2 == "" {
+			a, b := l.New[name](), l.New[name]()
+			e1, p1 := realUnmarshal(append([]byte(nil), withNil...), a)
+			e2, p2 := realUnmarshal(append([]byte(nil), withEmpty...), b)
+			if e1 == "" && e2 == "" && p1 == "" && p2 == "" &&
+				l.Reg.FromStruct(name, a).String() == l.Reg.FromStruct(name, b).String() {
+				same = true
+				c.count("nil_element_equal_as_values_only")
+			}
+		}
+		if !same {
 			c.disagree(Disagreement{Kind: "real!=real", Check: "nil-element-is-empty-element",
 				Case: cs(map[string]string{"field_index": fmt.Sprint(i), "element": fmt.Sprint(k)}),
 				Got:  map[string]string{"with_nil": short(hexs(withNil) + bad1), "with_empty": short(hexs(withEmpty) + bad2)}})
